@@ -9,9 +9,15 @@ This translator is deliberately *dumb*: it transcribes syntax (clang-14 JSON AST
     cond.wait*(lk[, pred]) -> wait / waitPred (pred inlined)       co_await / co_yield -> await
     try/catch -> tryc             MemberExpr naming a guarded field of the class -> act (access i w)
     call of a member function of the same class (or a base) -> call "<name>" <definition of the callee>   (inlined)
-    lambda: invoked in place (argument of wait*/std algorithms/visit, or returned into a cocls::future) -> catch ret (body)
+    lambda: invoked in place (argument of wait*/std algorithms/visit, returned into a cocls::future, or called where it is written:
+            `[&]{...}()`) -> catch ret (body)
             otherwise (stored / handed to another thread) -> a separate entry that is checked from the free state
+    `_mx.lock(); S...; _mx.unlock();` in one statement list -> guard (S) when S can only be left normally (built-in operations on
+            scalars, no call of any kind: Tr.nothrow), else the raw acts (the checker rejects a region an exception can leave locked)
+    lk.owns_lock() -> skip (observer of the lock object)      a class with several mutex members -> bad (not modelled)
     anything it does not understand that involves the lock object or the mutex -> bad (the checker rejects it)
+A function is listed (checked) when it lexically takes the lock / touches a guarded field / waits, or calls a helper that is not a
+stand-alone entry (non-public, no lock of its own): a public function that only forwards to such a helper is checked from the free state.
 Which lock state an access runs in, whether branches agree, what a loop preserves, what a destructor has to release: all of
 that is decided by `LockProg.check` in Lean, whose soundness is proved (`check_sound`, `checkFn_sound`, `lockprogs_safe`).
 
@@ -270,9 +276,83 @@ class Tr:
         return b is None or self.is_class_or_base_type(astwalk.qt(astwalk.strip(b))) or astwalk.strip(b).get("kind") == "CXXThisExpr"
 
     # ---- statements
+    def mutex_op(self, st):
+        """the statement is exactly `_mx.lock();` / `_mx.unlock();` on the class's mutex -> "lock" / "unlock" """
+        o = st
+        while isinstance(o, dict) and o.get("kind") in ("ExprWithCleanups", "ParenExpr") and len(o.get("inner", [])) == 1:
+            o = o["inner"][0]
+        if not isinstance(o, dict) or o.get("kind") != "CXXMemberCallExpr":
+            return None
+        inner = [c for c in o.get("inner", []) if isinstance(c, dict) and c.get("kind")]
+        if len(inner) != 1:
+            return None
+        callee = astwalk.strip(inner[0])
+        if callee.get("kind") not in ("MemberExpr", "CXXDependentScopeMemberExpr"):
+            return None
+        name = callee.get("name") or callee.get("member") or ""
+        base = astwalk.base_of(callee)
+        return name if name in ("lock", "unlock") and base is not None and self.is_mutex_ref(base) and len(self.mutexes) == 1 else None
+
+    SCALAR = re.compile(r"(?:(?:const|volatile|unsigned|signed|long|short|int|char|bool|float|double|wchar_t|char8_t|char16_t|char32_t)\s*)+"
+                        r"|(?:const\s+)?(?:std::)?(?:size_t|ptrdiff_t|u?int(?:_fast|_least)?(?:8|16|32|64)_t|u?intptr_t)(?:\s+const)?")
+    NOTHROW_EXPRS = ("IntegerLiteral", "CXXBoolLiteralExpr", "FloatingLiteral", "CharacterLiteral", "CXXNullPtrLiteralExpr", "ImplicitCastExpr",
+                     "ParenExpr", "DeclRefExpr", "MemberExpr", "CXXThisExpr", "UnaryOperator", "BinaryOperator", "CompoundAssignOperator",
+                     "ConditionalOperator", "CStyleCastExpr", "CXXStaticCastExpr", "ConstantExpr")
+
+    def nothrow(self, o):
+        """the statement cannot be left other than normally: only built-in operations on scalars (arithmetic types and pointers; every
+        sub-expression has such a type, so no overloaded operator, conversion function, constructor or destructor is involved - those
+        are other node kinds anyway), declarations of scalar locals, if / blocks of such.  No call of any kind, no `new`, no `throw`, no
+        return / break / continue / goto, no loop, no co_await, nothing dependent on a template parameter."""
+        if not isinstance(o, dict) or not o.get("kind"):
+            return True
+        k = o["kind"]
+        inner = [c for c in o.get("inner", []) if isinstance(c, dict) and c.get("kind")]
+        if k in ("CompoundStmt", "NullStmt"):
+            return all(self.nothrow(c) for c in inner)
+        if k == "IfStmt":
+            return all(self.nothrow(c) for c in inner)
+        if k == "DeclStmt":
+            return all(c.get("kind") == "VarDecl" and self.scalar(c) and c.get("storageClass") != "static"
+                       and all(self.nothrow(x) for x in c.get("inner", []) if isinstance(x, dict) and x.get("kind") and not x["kind"].endswith(("Attr", "Comment")))
+                       for c in inner)
+        if k in self.NOTHROW_EXPRS:
+            if k != "CXXThisExpr" and not self.scalar(o):
+                return False
+            if k == "UnaryOperator" and o.get("opcode") == "*" and False:
+                return False
+            return all(self.nothrow(c) for c in inner)
+        return False
+
+    def scalar(self, o):
+        t = o.get("type") or {}
+        t = (t.get("desugaredQualType") or t.get("qualType") or "").strip()
+        if not t or "dependent" in t or "type-parameter" in t:
+            return False
+        if t.endswith(("*", "* const", "*const")):
+            return True
+        return bool(self.SCALAR.fullmatch(t))
+
     def block(self, stmts, env):
         out = []
+        skip_to = -1
         for i, st in enumerate(stmts):
+            if i <= skip_to:
+                continue
+            if self.mutex_op(st) == "lock":
+                # `_mx.lock(); S...; _mx.unlock();` in one statement list where S can only be left normally (self.nothrow): the lock
+                # region `guard (S)` - lock; S; unlock.  (`guard` also unlocks on the exits S does not have: more paths, never fewer.)
+                # With anything else in between the raw acts are transcribed and LockProg.check decides (it rejects a region that an
+                # exception can leave with the mutex locked).
+                j = i + 1
+                while j < len(stmts) and self.mutex_op(stmts[j]) is None and self.nothrow(stmts[j]):
+                    j += 1
+                if j < len(stmts) and self.mutex_op(stmts[j]) == "unlock":
+                    env["flags"]["lexical"] = True
+                    env["flags"]["mxlock"] = True
+                    out.append(("guard", self.block(stmts[i + 1:j], dict(env))))
+                    skip_to = j
+                    continue
             ld = self.lock_decl(st)
             if ld is not None:
                 kind, var, ok, pre = ld
@@ -314,8 +394,8 @@ class Tr:
         for c in d.get("inner", []):
             if isinstance(c, dict) and c.get("kind"):
                 args += ctor_args(c)
-        if len(args) != 1 or not self.is_mutex_ref(args[0]):
-            ok = False
+        if len(args) != 1 or not self.is_mutex_ref(args[0]) or len(self.mutexes) != 1:
+            ok = False      # (a class with several mutex members: which of them guards which field is not modelled -> not understood)
         return (kind, d.get("name", ""), ok, SKIP)
 
     def stmt(self, o, env):
@@ -478,6 +558,14 @@ class Tr:
             return self.expr(inner[0], env, write=True)
         if k in ("CoawaitExpr", "DependentCoawaitExpr", "CoyieldExpr"):
             return seq([self.expr(c, env) for c in inner[:1]] + [("await",)])
+        if k in ("CXXOperatorCallExpr", "CallExpr") and inner:
+            # `[&]{ ... }()`: the lambda is invoked in place, its body is part of this statement (runs in the current lock state)
+            fn = inner[1] if k == "CXXOperatorCallExpr" and len(inner) >= 2 else inner[0]
+            while isinstance(fn, dict) and fn.get("kind") in WRAPPERS and len([c for c in fn.get("inner", []) if c.get("kind")]) == 1:
+                fn = [c for c in fn["inner"] if c.get("kind")][0]
+            if isinstance(fn, dict) and fn.get("kind") == "LambdaExpr":
+                rest = inner[2:] if k == "CXXOperatorCallExpr" else inner[1:]
+                return seq([self.expr(a, env) for a in rest] + [self.lambda_(fn, env, sync=True)])
         if k in ("CXXMemberCallExpr", "CallExpr", "CXXOperatorCallExpr"):
             return self.call(o, env)
         return seq([self.expr(c, env) for c in inner])
@@ -510,7 +598,7 @@ class Tr:
         if ck == "CXXDependentScopeMemberExpr":
             return callee.get("member", "")
         if ck == "UnresolvedMemberExpr":
-            return astwalk.token_at(callee.get("_file", ""), (callee.get("range") or {}).get("end") or {})
+            return callee.get("_vn_name") or astwalk.token_at(callee.get("_file", ""), (callee.get("range") or {}).get("end") or {})
         if ck == "DeclRefExpr":
             return (callee.get("referencedDecl") or {}).get("name", "")
         if ck == "UnresolvedLookupExpr":
@@ -530,10 +618,16 @@ class Tr:
         # ---- operations on a lock object / the mutex
         if is_member and base is not None and (self.is_lock_ref(base, env) or self.is_mutex_ref(base)):
             env["flags"]["lexical"] = True
+            if len(self.mutexes) != 1:
+                return ("bad", "class has several mutex members: which one guards which field is not modelled")
             if name == "lock" and not args:
+                if self.is_mutex_ref(base):
+                    env["flags"]["mxlock"] = True       # takes the mutex itself, without a lock object
                 return ("lock",)
             if name == "unlock" and not args:
                 return ("unlock",)
+            if name == "owns_lock" and not args and self.is_lock_ref(base, env):
+                return SKIP       # pure observer of the lock OBJECT (`assert(lk.owns_lock())`): no operation on the mutex
             return ("bad", "lock/mutex operation ." + name)
         # ---- condition variable wait: first argument is the lock object
         if is_member and name in ("wait", "wait_until", "wait_for") and args and self.is_lock_ref(args[0], env):
@@ -638,7 +732,7 @@ def build(repo=None, workdir=None):
     repo = repo or os.environ.get("COCLS_REPO", "/repo")
     workdir = workdir or os.path.join(ex.VERIF, "build", "extract_lockprog")
     objs = astwalk.dump_ast(repo, workdir)
-    w = astwalk.Walker(objs).run()
+    w = astwalk.Walker(ex.names.canonicalise(objs)).run()     # private names -> the names of the validated tree (extract/names.py)
     fns = collect_functions(objs)
     classes = []
     for kcls in ex.GUARDED:
@@ -660,8 +754,8 @@ def build(repo=None, workdir=None):
             ndef = len(tr.deferred)
             p = tr.stmt(f.body, env)
             results[id(f)] = dict(f=f, prog=p, lexical=flags["lexical"] or bool(locks), lockparam=bool(locks),
-                                  declares=tr.has_kind(f.body, ("DeclStmt",)) and any(
-                                      any(t in astwalk.qt(d) for t in LOCK_TYPES) for d in iter_vardecls(f.body)),
+                                  declares=(tr.has_kind(f.body, ("DeclStmt",)) and any(
+                                      any(t in astwalk.qt(d) for t in LOCK_TYPES) for d in iter_vardecls(f.body))) or bool(flags.get("mxlock")),
                                   deferred=tr.deferred[ndef:])
         # base-class functions can be call targets: translate them with this class's translator as well
         for f in tr.callable:
@@ -776,7 +870,18 @@ def regenerate(out=None):
         lines.append("/-! ### %s — guarded fields: %s -/" % (kcls, ", ".join("%d=%s" % (i, f) for i, f in enumerate(tr.fields))))
         lines.append("")
         byname = {tr.defname[id(f)]: f for f in order}
-        listed = [f for f in order if results[id(f)]["lexical"] and not results[id(f)].get("base")]
+        def is_entry(g):
+            r = results[id(g)]
+            return (g.access == "public" or r["declares"]) and not r["lockparam"]
+
+        def calls_helper(p):
+            """the program calls (directly) a function that is NOT a stand-alone entry: a helper that expects its caller's lock"""
+            if p[0] == "callref":
+                return p[2] in byname and not is_entry(byname[p[2]])
+            return any((isinstance(x, tuple) and calls_helper(x)) or (isinstance(x, list) and any(calls_helper(y) for y in x)) for x in p[1:])
+        # listed: lexically takes the lock / touches a guarded field / waits - or, without doing any of that itself, calls a helper that
+        # expects the lock to be held (then it is an entry point whose call of the helper must be checked from the free state)
+        listed = [f for f in order if (results[id(f)]["lexical"] or calls_helper(done[id(f)])) and not results[id(f)].get("base")]
         needed = set()
 
         def need(p):
